@@ -326,7 +326,7 @@ func TestC18(t *testing.T) {
 	defer finish(rec)
 	rec.Describe("case = (schema S from the C01/C02 grammar in either draft, 4 instances, decorated copy of S: 1-4 insertions at random subschema objects of title/description/$comment/default/examples/deprecated/readOnly/writeOnly/format/contentEncoding/contentMediaType/contentSchema/unreferenced $defs entries with well-typed values, or of unknown names — letter-case variants of every standard keyword, Go struct field names, random identifiers — with arbitrary JSON values). Oracle: Unmarshal and Resolve accept the decorated document and every instance gets the same verdict as under S. Non-trivial: at least one decoration was inserted. Distinct = distinct (decorated document, instance).",
 		"contentSchema and unreferenced definitions are identifier-free schemas without references (they cannot introduce resolution errors of their own)")
-	rapid.Check(t, propC18(rec))
+	rapid.Check(t, watched("C18", propC18(rec)))
 }
 
 // propC18 is the property body, shared by TestC18 (rapid) and FuzzC18 (native fuzzing over
